@@ -18,6 +18,8 @@ REAL = ["a", "b", "c", "dd", "e"]
 ALTS = ["a(2)", "a(3)", "b(2)", "dd(2)"]
 FILL = ["<sil>", "++noise++", "[um]"]
 FILL_ALT = ["<sil>(2)"]
+# labels that differ only in letter case, or only in a non-ASCII byte: the vocabulary is byte-exact
+CASEVAR = [("Polish", "polish"), ("US", "us"), ("Go", "go"), ("caf\u00e9", "CAF\u00e9"), ("caf\u00e9", "caf\u00c9"), ("a", "A")]
 
 
 # ----------------------------------------------------------------------------- helpers
@@ -156,6 +158,10 @@ def gen_case(rng, tier, stats, allow_tiny=True, want_dict=None):
         pool += [rng.choice(ALTS)]
     if rng.chance(0.25):
         pool += [rng.choice(FILL + FILL_ALT)]
+    casepair = rng.choice(CASEVAR) if rng.chance(0.35) else None
+    if casepair:
+        pool += list(casepair)
+        stats["branches"]["case_variant_words"] = stats["branches"].get("case_variant_words", 0) + 1
 
     def lp():
         v = rand_logp(rng, lw, stats)
@@ -196,6 +202,11 @@ def gen_case(rng, tier, stats, allow_tiny=True, want_dict=None):
             if rng.chance(0.2):
                 stats["branches"]["dup_null"] += 1
                 ops.append(f"null {a} {b} {nlp()}")
+    if casepair:   # parallel arcs between the same two states labelled with the two spellings, different probabilities
+        for _ in range(rng.range(1, 2)):
+            a, b = rng.below(n), rng.below(n)
+            ops.append(f"trans {a} {b} {-rng.range(1, 400)} {wid(casepair[0])}")
+            ops.append(f"trans {a} {b} {-rng.range(401, 900)} {wid(casepair[1])}")
     if rng.chance(0.45) and n >= 2:  # explicit null chain, sometimes closed into a cycle
         ln = rng.range(2, min(n, 7 if not big else 20))
         sts = list(range(n))
@@ -307,7 +318,7 @@ def gen_read_case(rng, stats):
         L.append("# another comment")
     if err != "nofinal":
         L.append(rng.choice(["FINAL_STATE", "F", "FINAL_ST"]) + " " + (rng.choice([str(n + 3), "-2", "?"]) if err == "badfinal" else str(rng.below(n))))
-    words = ["a", "b", "a(2)", "<sil>", "c"]
+    words = ["a", "b", "a(2)", "<sil>", "c", "A", "B", "Go", "go", "caf\u00e9", "caf\u00c9"]
     nt = rng.range(0, 8)
     bad_at = rng.below(nt + 1)
     for i in range(nt + 1):
@@ -869,6 +880,13 @@ class Runner:
                     elif w[0] == "silence":
                         k = "add_silence all states" if w[2] == "-1" else "add_silence one state"
                         self.stats["branch_outcomes"][k] = self.stats["branch_outcomes"].get(k, 0) + 1
+            for (o_i, d_) in dumps:   # what the reader returns is closed
+                if d_ and o_i >= 1 and case[o_i - 1].split()[0] in ("read", "reread") and ho[o_i - 1].strip() == "ok":
+                    zero_ = int(ho[0].split()[1]) if ho and ho[0].startswith("ok ") else -536870912
+                    self.stats["closedness_checks"] += 1
+                    nc = not_closed(d_, zero_)
+                    if nc:
+                        r["idem"].append({"op": case[o_i - 1].split()[0], "problem": "the grammar returned by the reader is not null-closed", "pairs": nc[:4]})
             # idempotence on the implementation: same transformation twice in a row
             for i in range(len(dumps) - 1):
                 (o1, d1), (o2, d2) = dumps[i], dumps[i + 1]
@@ -1031,7 +1049,7 @@ def check(c):
                 if r["diff"] or r["oracle"] or r["idem"] or r["crash"]:
                     allok = False
                 if len(pending) < 40:
-                    pending.append((0 if found else 1, len(pending), case, r, label))
+                    pending.append((0 if r["oracle"] else (1 if found else 2), len(pending), case, r, label))
 
     def flush():
         """shrink and report at most three problem cases, implementation-side property failures first"""
